@@ -87,6 +87,6 @@ Print Assumptions C06_do.
 Theorem C06_block_known_finding : forall src file prev n,
   block_shape n = true -> block_braces src n = true ->
   entities_of src file prev n = Ok [stmt_entity "block" "BlockStmt" src n file (block_spec src n)]
-  /\ block_spec src n = SBlock (["{"] ++ List.map (content src) (named_kids n) ++ ["}"]).
+  /\ block_spec src n = SBlock (["{"] ++ List.map (content src) (named_parts n) ++ ["}"]).
 Proof. exact block_stmts_with_braces. Qed.
 Print Assumptions C06_block_known_finding.
